@@ -11,15 +11,15 @@ From D3 Require Import Model.DistPrim Model.Mpr Proofs.DistBase Proofs.Mpr.
 From Coq Require Import Lra.
 Import ListNotations.
 
-Theorem C08_direction_sound : forall t u eps,
-  dir_ok t u eps = true ->
-  (0 <= Q2R t)%R /\ ((Rabs (norm (v2r u) - 1) <= Q2R eps)%R \/ (Q2R t = 0%R /\ v2r u = vzero)).
+Theorem C08_direction_sound : forall t u eps tiny,
+  dir_ok t u eps tiny = true ->
+  (0 <= Q2R t)%R /\ ((Rabs (norm (v2r u) - 1) <= Q2R eps)%R \/ ((Q2R t <= Q2R tiny)%R /\ v2r u = vzero)).
 Proof. exact dir_ok_sound. Qed.
 
-Theorem C08_result_certificate_sound : forall A B t u pos n1 n2 wa wb tol eps,
-  pen_cert A B t u pos n1 n2 wa wb tol eps = true ->
+Theorem C08_result_certificate_sound : forall A B t u pos n1 n2 wa wb tol eps tiny,
+  pen_cert A B t u pos n1 n2 wa wb tol eps tiny = true ->
   (0 <= Q2R t)%R /\
-  ((Rabs (norm (v2r u) - 1) <= Q2R eps)%R \/ (Q2R t = 0%R /\ v2r u = vzero)) /\
+  ((Rabs (norm (v2r u) - 1) <= Q2R eps)%R \/ ((Q2R t <= Q2R tiny)%R /\ v2r u = vzero)) /\
   depth_le (sem A) (translate (vscale (Q2R t) (v2r u)) (sem B)) (Q2R tol) /\
   depth_le (sem A) (sem B) (Q2R t + Q2R tol) /\
   (exists qa, sem A qa /\ (norm (vsub (v2r pos) qa) <= Q2R tol)%R) /\
@@ -41,11 +41,11 @@ Definition ex_b1 : sh := Sum (Pt (V 0 0 0)) (Ell (V 1 0 0) (V 0 1 0) (V 0 0 1)).
 Definition ex_b2 : sh := Sum (Pt (V (3 # 2) 0 0)) (Ell (V 1 0 0) (V 0 1 0) (V 0 0 1)).
 Example C08_nonvacuous :
   pen_cert ex_b1 ex_b2 (1 # 2) (V 1 0 0) (V (3 # 4) 0 0) (V 1 0 0) (V 1 0 0)
-           (WSum WPt (WEll (3 # 4) 0 0)) (WSum WPt (WEll (- (3 # 4)) 0 0)) (1 # 500) (1 # 1000000000) = true
+           (WSum WPt (WEll (3 # 4) 0 0)) (WSum WPt (WEll (- (3 # 4)) 0 0)) (1 # 500) (1 # 1000000000) (1 # 4503599627370496) = true
   /\ pen_cert ex_b1 ex_b2 (1 # 4) (V 1 0 0) (V (3 # 4) 0 0) (V 1 0 0) (V 1 0 0)
-           (WSum WPt (WEll (3 # 4) 0 0)) (WSum WPt (WEll (- (3 # 4)) 0 0)) (1 # 500) (1 # 1000000000) = false
-  /\ dir_ok 0 (V 0 0 0) (1 # 1000000000) = true
-  /\ dir_ok (1 # 2) (V 0 0 0) (1 # 1000000000) = false.
+           (WSum WPt (WEll (3 # 4) 0 0)) (WSum WPt (WEll (- (3 # 4)) 0 0)) (1 # 500) (1 # 1000000000) (1 # 4503599627370496) = false
+  /\ dir_ok 0 (V 0 0 0) (1 # 1000000000) (1 # 4503599627370496) = true
+  /\ dir_ok (1 # 2) (V 0 0 0) (1 # 1000000000) (1 # 4503599627370496) = false.
 Proof. repeat split; vm_compute; reflexivity. Qed.
 
 (** ** about the model of the code (Model/Mpr.v: _penetration_info, _find_penetration_touch,
